@@ -67,11 +67,12 @@ static inline size_t spec_entry_len(const uint8_t *b, size_t size, size_t o, boo
     return 3 + sz;
 }
 /* WF_tlv: entries tile [0, size-1), END at size-1, at most MAXATTR of them; returns the entry count or -1 */
-static inline int spec_wf_tlv(const uint8_t *b, size_t size, size_t cap)
+static inline int spec_wf_tlv_n(const uint8_t *b, size_t size, size_t cap, int maxn)
 {
     if (size < 1 || size > cap) return -1;
     size_t o = 0;
-    for (int n = 0; n <= MAXATTR; n++) {
+    for (int n = 0; n <= MAXATTR + 1; n++) {
+        if (n > maxn) return -1;
         bool end; size_t l = spec_entry_len(b, size, o, &end);
         if (l == 0) return -1;
         if (end) return o == size - 1 ? n : -1;
@@ -80,7 +81,27 @@ static inline int spec_wf_tlv(const uint8_t *b, size_t size, size_t cap)
     }
     return -1;
 }
-#define HSPEC_WF(b, size, cap) H_spec_wf_tlv(b, size, cap)
+static inline int spec_wf_tlv(const uint8_t *b, size_t size, size_t cap) { return spec_wf_tlv_n(b, size, cap, MAXATTR); }
+/* keys are unique: no two entries with the same type and (for named types) the same name */
+static inline bool spec_same_key_at(const uint8_t *b, size_t o1, size_t o2)
+{
+    if (b[o1] != b[o2]) return false;
+    if (b[o1] > UDICT_TYPE_SHORTHAND) return true;
+    for (int k = 0; k < 4; k++) { if (b[o1 + 3 + k] != b[o2 + 3 + k]) return false; if (b[o1 + 3 + k] == 0) return true; }
+    return true;
+}
+static inline bool spec_unique(const uint8_t *b, size_t size)
+{
+    size_t off[MAXATTR + 2]; int n = 0; size_t o = 0;
+    for (int k = 0; k <= MAXATTR; k++) {
+        bool end; size_t l = spec_entry_len(b, size, o, &end);
+        if (l == 0 || end) break;
+        off[n++] = o; o += l;
+    }
+    for (int i = 0; i < MAXATTR + 1; i++) for (int j = 0; j < MAXATTR + 1; j++)
+        if (i < j && j < n && spec_same_key_at(b, off[i], off[j])) return false;
+    return true;
+}
 /* entry-side copies */
 static inline size_t H_spec_entry_len(const uint8_t *b, size_t size, size_t o, bool *is_end)
 {
@@ -110,7 +131,7 @@ static struct udict *build_dict(const uint8_t *bytes, size_t size)
 #define SAME_KEY(n1, t1, n2, t2) ((t1) == (t2) && ((t1) > UDICT_TYPE_SHORTHAND || !strcmp(n1, n2)))
 #define BUILD() \
     VIN_ARR(uint8_t, bytes, CAP); VIN(size_t, used); \
-    VASSUME(H_spec_wf_tlv(bytes, used, CAP) >= 0); \
+    VASSUME(H_spec_wf_tlv(bytes, used, CAP) >= 0 && spec_unique(bytes, used)); \
     struct udict *d = build_dict(bytes, used); \
     VIN(uint8_t, gi)
 /* answer of get(k): presence, size and octet gi of the value */
@@ -137,7 +158,7 @@ void h_set(void)
     struct vget mine = do_get(d, k1, t1, gi), after = do_get(d, k2, t2, gi);
     VPOST(ret != UBASE_ERR_NONE || (mine.found && mine.size == n && mine.p == slot));          /* get after set */
     VPOST(SAME_ANSWER(before, after));                                                             /* other keys untouched */
-    VPOST(H_spec_wf_tlv(g_inl.umem.buffer, g_inl.size, g_inl.umem.size) >= 0);                     /* WF preserved */
+    VPOST(spec_wf_tlv_n(g_inl.umem.buffer, g_inl.size, g_inl.umem.size, MAXATTR + 1) >= 0);         /* WF preserved (one more entry at most) */
     VCANARY();
 }
 void h_delete(void)
@@ -153,6 +174,43 @@ void h_delete(void)
     VPOST(SAME_ANSWER(before, after));
     VPOST(ret == UBASE_ERR_NONE || g_inl.size == size_old);
     VPOST(H_spec_wf_tlv(g_inl.umem.buffer, g_inl.size, g_inl.umem.size) >= 0);
+    VCANARY();
+}
+/* get against the specification's own lookup (absolute, not relative to find): first entry whose type is the key's
+ * and, for named types, whose name equals the key's name up to and including the terminator */
+static inline bool spec_entry_matches(const uint8_t *b, size_t o, const char *name, enum udict_type type)
+{
+    if (b[o] != (uint8_t)type) return false;
+    if (type > UDICT_TYPE_SHORTHAND) return true;
+    for (int k = 0; k < 4; k++) { if (b[o + 3 + k] != (uint8_t)name[k]) return false; if (name[k] == 0) return true; }
+    return true;
+}
+void h_get(void)
+{
+    BUILD(); KEY(k1, t1, a_);
+    /* specification lookup */
+    bool exp_found = false; size_t exp_off = 0, exp_size = 0; size_t o = 0;
+    for (int k = 0; k <= MAXATTR; k++) {
+        bool end; size_t l = H_spec_entry_len(bytes, used, o, &end);
+        if (l == 0 || end) break;
+        if (spec_entry_matches(bytes, o, k1, t1)) {
+            exp_found = true;
+            if (t1 > UDICT_TYPE_SHORTHAND) {
+                enum udict_type base = inline_shorthands[t1 - UDICT_TYPE_SHORTHAND - 1].base_type;
+                bool var = base == UDICT_TYPE_OPAQUE || base == UDICT_TYPE_STRING;
+                exp_off = o + (var ? 3 : 1); exp_size = l - (var ? 3 : 1);
+            } else {
+                size_t nl = 0; for (int j = 0; j < 4; j++) { if (k1[j] == 0) { nl = j; break; } }
+                exp_off = o + 4 + nl; exp_size = l - 4 - nl;
+            }
+            break;
+        }
+        o += l;
+    }
+    size_t sz = 0; const uint8_t *p = NULL;
+    int ret = udict_inline_get(d, k1, t1, &sz, &p);
+    VPOST((ret == UBASE_ERR_NONE) == exp_found);
+    VPOST(!exp_found || (p == g_store + exp_off && sz == exp_size));
     VCANARY();
 }
 void h_iterate(void)
